@@ -1,0 +1,55 @@
+//go:build verif
+
+// Contracts for the verification machinery in /verif (comment-only; compiled only with -tags verif).
+
+package txnprocessor
+
+// ---- C15: one stamped operation per DID, single all-or-nothing write ----
+//
+//@ ghost puts int
+//@ ghost lastPut []*operation.AnchoredOperation
+//@ ghost provFailed bool
+//
+//@ spec stamped(op *operation.AnchoredOperation, t *txn.SidetreeTxn) bool {
+//@     op.TransactionTime == t.TransactionTime && op.TransactionNumber == t.TransactionNumber &&
+//@     op.ProtocolVersion == t.ProtocolVersion && op.CanonicalReference == t.CanonicalReference &&
+//@     op.EquivalentReferences == t.EquivalentReferences }
+//@ spec opsNonNil(ops []*operation.AnchoredOperation) bool { forall q int :: 0 <= q && q < len(ops) ==> ops[q] != nil }
+//
+//@ iface OperationStore.Put
+//@   modifies puts, lastPut
+//@   ensures puts == old(puts) + 1 && lastPut == ops
+//
+//@ iface unpublishedOperationStore.DeleteAll
+//
+//@ iface api/protocol.OperationProvider.GetTxnOperations
+//@   results ops, err
+//@   modifies provFailed
+//@   ensures provFailed == (err != nil)
+//@   ensures err == nil ==> opsNonNil(ops)
+//
+//@ func updateAnchoredOperation
+//@   requires op != nil && sidetreeTxn != nil
+//@   ensures  result == op
+//@   ensures  stamped(op, sidetreeTxn)
+//@   modifies op.TransactionTime, op.TransactionNumber, op.ProtocolVersion, op.CanonicalReference, op.EquivalentReferences
+//
+//@ func (*TxnProcessor).processTxnOperations
+//@   requires p != nil && p.Providers != nil && p.OpStore != nil && p.unpublishedOperationStore != nil
+//@   requires sidetreeTxn != nil && opsNonNil(txnOps)
+//@   loop 1
+//@     invariant puts == old(puts) && len(ops) <= _k
+//@     invariant forall a int :: 0 <= a && a < len(ops) ==> ops[a] != nil && stamped(ops[a], sidetreeTxn) && ops[a].UniqueSuffix in batchSuffixes
+//@     invariant forall a int, b int :: 0 <= a && a < b && b < len(ops) ==> ops[a].UniqueSuffix != ops[b].UniqueSuffix
+//@   ensures puts == old(puts) + 1
+//@   ensures forall a int :: 0 <= a && a < len(lastPut) ==> lastPut[a] != nil && stamped(lastPut[a], sidetreeTxn)
+//@   ensures forall a int, b int :: 0 <= a && a < b && b < len(lastPut) ==> lastPut[a].UniqueSuffix != lastPut[b].UniqueSuffix
+//@   ensures err != nil ==> r0 == 0
+//@   ensures err == nil ==> r0 == len(lastPut)
+//@   modifies *
+//
+//@ func (*TxnProcessor).Process
+//@   requires p != nil && p.Providers != nil && p.OpStore != nil && p.unpublishedOperationStore != nil && p.OperationProtocolProvider != nil
+//@   ensures provFailed ==> puts == old(puts) && err != nil && r0 == 0
+//@   ensures puts <= old(puts) + 1
+//@   modifies *
